@@ -1,9 +1,154 @@
+(** C17 - property theorems only. Each is closed by [exact] of a lemma proved in
+    proofs/SemProofs*.v; nothing else lives here.
+
+    Vocabulary (model/Sem.v): [reach sz n ls] = the state reached from
+    NewLimitListener(_, n) (maxCapacity = sz) by the label sequence [ls] in the [ideal] model
+    (labels = critical sections: LAcquire, LGot c, LFail, LClose c, LSetMax n, LRun i - the
+    i-th pending SetMaxCount goroutine reaches the semaphore, ANY order); [used] = permits
+    held by acceptors (inside the inner Accept + open connections); [settled] = no
+    SetMaxCount goroutine outstanding (none pending, none queued) - the reading of "a change
+    has been applied"; [applied_cap] = realCapacity - pending deltas + queued shrinks. *)
 From EG.lib Require Import Base.
 From EG.model Require Import Sem.
-From EG.proofs Require Import SemProofs.
+From EG.proofs Require Import SemProofs SemProofs2 SemProofs3.
 Open Scope Z_scope.
 
-Theorem sem_accounting : forall sz n, 0 <= n -> 0 < sz ->
-  cur (ws (linit ideal sz n)) = sz - real (linit ideal sz n).
-Proof. exact sem_accounting_init. Qed.
+(** accounting invariant of the pre-acquired semaphore, in every reachable state *)
+Theorem sem_accounting : forall sz n ls, 0 < sz -> 0 <= n -> Forall label_ok ls ->
+  let s := reach sz n ls in
+  cur (ws s) = size (ws s) - applied_cap s + used s /\
+  applied_cap s <= size (ws s) /\ 0 <= cur (ws s) <= size (ws s).
+Proof. exact T_sem_accounting. Qed.
 Print Assumptions sem_accounting.
+
+(** no "released more than held": neither in a caller nor inside a SetMaxCount goroutine,
+    and no goroutine blocked for ever (ideal model) *)
+Theorem C17_ideal_never_panics : forall sz n ls, 0 < sz -> 0 <= n -> Forall label_ok ls ->
+  let s := reach sz n ls in crashed s = false /\ panics s = 0 /\ doomed s = 0.
+Proof. exact T_never_panics. Qed.
+Print Assumptions C17_ideal_never_panics.
+
+(** the HTTP cap, for all interleavings of accepts, closes, SetMaxConnection calls and of
+    the SetMaxCount goroutines *)
+Theorem C17_http_cap : forall sz n ls, 0 < sz -> 0 <= n -> Forall label_ok ls ->
+  let s := reach sz n ls in
+  (settled s = true -> used s <= real s) /\
+  used s <= applied_cap s /\
+  (only_shrinks (pend s) -> shrink_at_head s ->
+     real s < used s /\ forall l, used (lstep ideal s l) <= used s) /\
+  (0 < count_who WAdj (wq (ws s)) -> used (lstep ideal s LAcquire) = used s) /\
+  (settled s = true -> real s <= used s -> forall l, used (lstep ideal s l) <= used s) /\
+  (forall l c, In c (opened s) -> l <> LClose c -> In c (opened (lstep ideal s l))).
+Proof. exact T_http_cap. Qed.
+Print Assumptions C17_http_cap.
+
+(** capacity released by a closed connection is usable again: in a settled state nobody
+    waits while a permit is free; a Close hands the permit to the longest waiting acceptor
+    in the same step; with nobody waiting the next Accept gets it immediately *)
+Theorem C17_released_capacity_reusable : forall sz n ls, 0 < sz -> 0 <= n -> Forall label_ok ls ->
+  let s := reach sz n ls in
+  settled s = true ->
+  (wq (ws s) <> [] -> used s = real s) /\
+  (forall c t, In c (opened s) -> wq (ws s) = (WAcc, 1) :: t ->
+     held (lstep ideal s (LClose c)) = held s + 1 /\ wq (ws (lstep ideal s (LClose c))) = t /\
+     used (lstep ideal s (LClose c)) = used s) /\
+  (forall c, In c (opened s) -> wq (ws s) = [] ->
+     let s1 := lstep ideal s (LClose c) in
+     used s1 = used s - 1 /\ held (lstep ideal s1 LAcquire) = held s1 + 1).
+Proof. exact T_released_capacity_reusable. Qed.
+Print Assumptions C17_released_capacity_reusable.
+
+(** Close releases exactly once: a second Close is the identity (any quirks, any state); the
+    Close of an already closed connection changes nothing; the Close of an open connection
+    gives back exactly one permit (then wakes a prefix [wk] of the queue) *)
+Theorem C17_close_releases_once :
+  (forall q s c, lstep q (lstep q s (LClose c)) (LClose c) = lstep q s (LClose c)) /\
+  (forall sz n ls c, 0 < sz -> 0 <= n -> Forall label_ok ls ->
+     let s := reach sz n ls in
+     (In c (closed s) -> lstep ideal s (LClose c) = s) /\
+     (In c (opened s) ->
+        exists wk, cur (ws (lstep ideal s (LClose c))) = cur (ws s) - 1 + wsum wk /\
+                   wq (ws s) = wk ++ wq (ws (lstep ideal s (LClose c))))).
+Proof. exact T_close_releases_once. Qed.
+Print Assumptions C17_close_releases_once.
+
+(** MQTT: |Broker.clients| <= maxAllowedConnection after ANY sequence of early checks,
+    commits (incl. failed CONNACK writes), tear-downs and deleteSession calls, for ANY quirks;
+    a takeover succeeds at any count - in particular at the cap - without raising it; a new id
+    at the cap is refused (server unavailable) in either check and nothing is registered;
+    below the cap it is admitted *)
+Theorem C17_mqtt_cap :
+  (forall q cap ls, 0 < cap -> clen (mrun q (minit cap) ls) <= cap) /\
+  (forall q cap ls k cid k0, let s := mrun q (minit cap) ls in
+     mem_N k (checked s) = true -> alookup cid (clients s) = Some k0 ->
+     snd (mstep q s (MCommit k cid false)) = MAccepted /\
+     clen (fst (mstep q s (MCommit k cid false))) = clen s /\
+     alookup cid (clients (fst (mstep q s (MCommit k cid false)))) = Some k) /\
+  (forall q s k cid wfail, mem_N k (checked s) = true -> alookup cid (clients s) = None -> at_cap s = true ->
+     snd (mstep q s (MCommit k cid wfail)) = MRefused /\
+     clients (fst (mstep q s (MCommit k cid wfail))) = clients s) /\
+  (forall q s k, mem_N k (checked s) = false -> live_cid k (live s) = None -> at_cap s = true ->
+     mstep q s (MCheck k) = (s, MRefused)) /\
+  (forall q s k cid, mem_N k (checked s) = true -> at_cap s = false ->
+     snd (mstep q s (MCommit k cid false)) = MAccepted).
+Proof. exact T_mqtt_cap. Qed.
+Print Assumptions C17_mqtt_cap.
+
+(** MQTT (ideal): every registered client is a connection whose tear-down has not run; when
+    all connections are gone the whole capacity is free again *)
+Theorem C17_mqtt_released_capacity : forall cap ls,
+  let s := mrun ideal (minit cap) ls in
+  (forall cid k, In (cid, k) (clients s) -> live_cid k (live s) = Some cid) /\
+  (live s = [] -> clients s = []).
+Proof. exact T_mqtt_released_capacity. Qed.
+Print Assumptions C17_mqtt_released_capacity.
+
+(** documented behaviour outside the "cap unchanged and applied" premise: while a shrink and
+    a grow are outstanding, 7 (re-ordered goroutines) resp. 6 (in order, an acceptor queued
+    beforehand) connections are open although no configured capacity ever exceeded 5;
+    [used <= applied_cap] (C17_http_cap) is what holds meanwhile *)
+Theorem C17_resize_reordering :
+  (let s := lrun ideal (linit ideal MC 5)
+                 (accept_n 5 0 ++ [LSetMax 2; LSetMax 4; LRun 1; LAcquire; LAcquire; LRun 0]) in
+   used s = 7 /\ real s = 4 /\ applied_cap s = 7 /\ settled s = false /\ wq (ws s) = [(WAdj, 3)]) /\
+  (let s := lrun ideal (linit ideal MC 5)
+                 (accept_n 5 0 ++ [LAcquire; LSetMax 2; LRun 0; LSetMax 4; LRun 0]) in
+   used s = 6 /\ real s = 4 /\ applied_cap s = 7 /\ settled s = false /\ wq (ws s) = [(WAdj, 3)]) /\
+  (let s := lrun ideal (linit ideal MC 5)
+                 (accept_n 5 0 ++ [LSetMax 2; LRun 0; LSetMax 4; LRun 0; LAcquire; LAcquire]) in
+   used s = 5 /\ real s = 4 /\ wq (ws s) = [(WAdj, 3); (WAcc, 1); (WAcc, 1)]).
+Proof. exact resize_reordering. Qed.
+Print Assumptions C17_resize_reordering.
+
+(** the pinned defect sites, each alone, break a clause (witnesses = corpus/C17/kf_*.json) *)
+Theorem C17_refuted_q_newsem_unclamped :
+  exists n ls, 0 <= n /\ Forall label_ok ls /\
+    panics (lrun q1 (linit q1 MC n) ls) = 1 /\ panics (lrun ideal (linit ideal MC n) ls) = 0.
+Proof. exact refuted_newsem_unclamped. Qed.
+Print Assumptions C17_refuted_q_newsem_unclamped.
+
+Theorem C17_refuted_q_grow_release_unchecked :
+  exists ls, Forall label_ok ls /\
+    crashed (lrun q2 (linit q2 MC 5) ls) = true /\ crashed (lrun ideal (linit ideal MC 5) ls) = false.
+Proof. exact refuted_grow_release_unchecked. Qed.
+Print Assumptions C17_refuted_q_grow_release_unchecked.
+
+Theorem C17_refuted_q_mqtt_connack_fail_leaks :
+  exists ls,
+    let s := mrun q3 (minit 1) ls in
+    live s = [] /\ clients s <> [] /\ snd (mstep q3 s (MCheck 7)) = MRefused /\
+    snd (mstep ideal (mrun ideal (minit 1) ls) (MCheck 7)) = MPassed.
+Proof. exact refuted_mqtt_connack_fail_leaks. Qed.
+Print Assumptions C17_refuted_q_mqtt_connack_fail_leaks.
+
+(** non-vacuity: concrete non-trivial states satisfying the hypotheses used above *)
+Example C17_nonvacuous_settled :
+  let s := lrun ideal (linit ideal MC 3)
+                (accept_n 3 0 ++ [LAcquire; LSetMax 1; LRun 0; LClose 1; LClose 1; LClose 0; LClose 2]) in
+  reachable s /\ settled s = true /\ used s = 1 /\ real s = 1 /\ opened s = [] /\ held s = 1.
+Proof. exact http_nonvacuous. Qed.
+
+Example C17_nonvacuous_shrink_at_head :
+  let s := lrun ideal (linit ideal MC 3) (accept_n 3 0 ++ [LSetMax 1; LRun 0]) in
+  reachable s /\ only_shrinks (pend s) /\ shrink_at_head s /\ used s = 3 /\ real s = 1.
+Proof. exact shrink_head_nonvacuous. Qed.
